@@ -25,6 +25,23 @@ import Tup.Lemmas.AllocFrame
   histories (a permutation argument between the table rows of a terminal and `latestPerId` of the log,
   which is where `hmono` is consumed). It is exercised by F on every generated history instead.
   The hypothesis `hmono` cannot be dropped: `tie_witness` below (D16).
+
+  **Where the full statements are proved.** The simulation invariant (`Display.Rel`,
+  `Lemmas/DisplayInv.lean`) is proved *using* the table-level theorems of this file, so it cannot be imported
+  here (import cycle); the history-level theorems therefore live in `Props/C08.lean`, stated against this
+  property's own specification `Spec.Retention` (the ghost log of the display machine forgotten to
+  `(id, description, size, time)` by `Display.retLog`, `Lemmas/RetentionSound.lean`):
+
+    C08.needsUploading_sound     StrictTimes → bound x = info → needs_uploading = false →
+                                   holdsCurrent t (retLog (logs T)) x info.desc now      (= the first statement above)
+    C08.needsUploading_complete  StrictTimes → bound x = info → uploadRow ≠ none → holdsCurrent … →
+                                   needs_uploading = false                               (= the second, with hmono)
+    C08.strictTimes_iff_strictlyIncreasing   `StrictTimes` there is `strictlyIncreasing (log T)` for every T here
+    C08.retention_specs_agree / retention_specs_differ_only_on_oversized_newest
+                                 `Spec.Retention.stillThere` ⇒ `Spec.Store.retained`, and the only difference
+                                 is Store's "the byte quota never evicts the newest image" clause.
+  Both are instances of `needsUploading_sound_partial` / `needsUploading_complete_partial` below, composed with
+  `later_le_table` / `table_le_later` (table rows of a terminal with a later time ↔ `laterImages` of the log).
 -/
 namespace Tup.C04
 open Tup Tup.Spec.Retention Tup.DbLemmas Tup.AllocLemmas
